@@ -52,20 +52,21 @@ FUNCTIONS = [
         # index arithmetic stays in range for any string: the only error is invalid-argument
         ensures vs_exc == 0 || vs_exc == VS_EXC_INVALID_ARGUMENT
         ensures g_ap_portlen == this->port_.size && IFF(g_ap_colon, this->hasColon_) && IFF(g_ap_ok, vs_exc == 0) && g_ap_family == this->family_
-        ensures this->family_ == AF_INET_ || this->family_ == AF_INET6_
+        ensures vs_exc == 0 ==> (this->family_ == AF_INET_ || this->family_ == AF_INET6_)
         # host and port are pieces of the text
         ensures vs_exc == 0 ==> (this->host_.size <= data->size && this->host_.off <= data->size - this->host_.size)
         ensures vs_exc == 0 ==> (this->port_.size <= data->size && this->port_.off <= data->size - this->port_.size)
         # a colon announces a non-empty port or the text is rejected; without a colon there is no port
         ensures (vs_exc == 0 && this->hasColon_) ==> this->port_.size > 0
         ensures (vs_exc == 0 && !this->hasColon_) ==> this->port_.size == 0
-        ensures (vs_exc != 0) ==> (this->hasColon_ || this->family_ == AF_INET6_)
         # unbracketed form: host is the text before the first colon, port the text after it
         ensures (vs_exc == 0 && this->family_ == AF_INET_) ==> this->host_.off == 0
         ensures (vs_exc == 0 && this->family_ == AF_INET_ && this->hasColon_) ==> (this->port_.off == this->host_.size + 1 && this->port_.off + this->port_.size == data->size)
         ensures (vs_exc == 0 && this->family_ == AF_INET_ && !this->hasColon_) ==> this->host_.size == data->size
-        # bracketed form: the host piece holds at least the two brackets
-        ensures (vs_exc == 0 && this->family_ == AF_INET6_) ==> this->host_.size >= 2
+        # bracketed form: the host piece holds at least the two brackets, and it is the START of the text: nothing stands in front of '['
+        ensures (vs_exc == 0 && this->family_ == AF_INET6_) ==> (this->host_.size >= 2 && this->host_.off == 0)
+        # ... and with a port, "]:" is all there is between the literal and the port
+        ensures (vs_exc == 0 && this->family_ == AF_INET6_ && this->hasColon_) ==> this->port_.off == this->host_.size + 1
         # C19 (a malformed literal is rejected, not truncated): nothing but ":port" may follow the closing bracket -- without a colon the
         # bracketed literal is the whole text, with one the port piece starts right behind "]:" and runs to the end
         ensures (vs_exc == 0 && this->family_ == AF_INET6_ && !this->hasColon_) ==> this->host_.off + this->host_.size >= data->size
@@ -97,6 +98,6 @@ NATIVE_SWEEPS = [{'name': 'address_texts', 'driver': 'addr_rt', 'props': ['C19']
               ['addr', '[0:0:0:0:0:0:0:1]:1', '::1', 1, 6],
               ['addr', '127.0.0.1:65536', 'reject'], ['addr', '127.0.0.1:', 'reject'], ['addr', '127.0.0.1:-1', 'reject'], ['addr', '127.0.0.1:8x', 'reject'], ['addr', '127.0.0.1:x', 'reject'],
               ['addr', '[::1]:', 'reject'], ['addr', '[::1]:65536', 'reject'], ['addr', '[::1]8080', 'reject'], ['addr', '[::1]x', 'reject'],
-              ['addr', '[::1]]:80', 'reject'], ['addr', '[::g]:80', 'reject'], ['addr', '1.2.3.4:99999999999999999999', 'reject'],
+              ['addr', '[::1]]:80', 'reject'], ['addr', 'x::1[]:80', 'reject'], ['addr', 'x[::1]:80', 'reject'], ['addr', '[::g]:80', 'reject'], ['addr', '1.2.3.4:99999999999999999999', 'reject'],
               ['port', '0', 0], ['port', '80', 80], ['port', '65535', 65535], ['port', '65536', 'reject'], ['port', '-1', 'reject'], ['port', '', 'reject'], ['port', '8o', 'reject'],
               ['port', ' 80', 80], ['port', '99999999999999999999', 'reject']]}]
